@@ -204,7 +204,8 @@ func c15Run(c fw.Case, env *fw.Env) fw.Result {
 							if id == 0 {
 								id = 1
 							}
-							m := &mqtt.Message{Topic: tag, QoS: mqtt.QoS1, ID: id}
+							// (an application re-sending a persisted message also brings its flags: DUP, retain)
+							m := &mqtt.Message{Topic: tag, QoS: mqtt.QoS(1 + (g+k)%2), ID: id, Dup: (g+k)%3 == 0, Retain: k%2 == 0}
 							err = cli.Publish(ctx, m)
 							tr.Mu.Lock()
 							found := false
@@ -411,7 +412,7 @@ func c15QueuedPreset(rng *rand.Rand) (string, string) {
 		id1 = uint16(1 + rng.Intn(65535))
 	}
 	qos1 := mqtt.QoS(1 + rng.Intn(2))
-	if err := rc.Publish(ctx, &mqtt.Message{Topic: "c15/first", QoS: qos1, ID: id1, Payload: []byte("1")}); err != nil {
+	if err := rc.Publish(ctx, &mqtt.Message{Topic: "c15/first", QoS: qos1, ID: id1, Dup: id1%2 == 1, Payload: []byte("1")}); err != nil {
 		return "inconclusive", err.Error()
 	}
 	// wait until the first request has failed into the retry queue
@@ -439,7 +440,7 @@ func c15QueuedPreset(rng *rand.Rand) (string, string) {
 		id++
 	}
 	qos := mqtt.QoS(1 + rng.Intn(2))
-	if err := rc.Publish(ctx, &mqtt.Message{Topic: "c15/preset", QoS: qos, ID: id, Payload: []byte("2")}); err != nil {
+	if err := rc.Publish(ctx, &mqtt.Message{Topic: "c15/preset", QoS: qos, ID: id, Dup: id%2 == 1, Payload: []byte("2")}); err != nil {
 		return "inconclusive", err.Error()
 	}
 	cli2, _ := scen.NewBase(tr, peer)
